@@ -497,9 +497,22 @@ def season_flag_guards(chk, prog, rule: str):
                                 tags.add(z.attr)
         return tags
 
+    # the flag local: the name the step hands to its callees' `growing_season` formal (by position or keyword), not a spelling
+    flag_names = set()
+    for call, tgt in prog.calls_in(step):
+        if hasattr(tgt, "params") and "growing_season" in tgt.params:
+            pos = tgt.params[1:] if (tgt.cls and tgt.params and tgt.params[0] in ("self", "cls")) else tgt.params
+            i = pos.index("growing_season")
+            if i < len(call.args) and isinstance(call.args[i], ast.Name):
+                flag_names.add(call.args[i].id)
+            for kw in call.keywords:
+                if kw.arg == "growing_season" and isinstance(kw.value, ast.Name):
+                    flag_names.add(kw.value.id)
+    if not flag_names:
+        raise AnalysisError("the step hands no local to a `growing_season` formal")
     sites = 0
     for a in walk_no_nested(step.node):
-        if not (isinstance(a, ast.Assign) and len(a.targets) == 1 and isinstance(a.targets[0], ast.Name) and a.targets[0].id == "growing_season"
+        if not (isinstance(a, ast.Assign) and len(a.targets) == 1 and isinstance(a.targets[0], ast.Name) and a.targets[0].id in flag_names
                 and isinstance(a.value, ast.Constant) and a.value.value is True):
             continue
         nid = flow.stmt_node.get(id(a))
